@@ -5,6 +5,7 @@
 // ReuseElement in src/reuse.rs) are verified to leave the element stack, the height of the scope
 // stack and the in_specs flag as they found them on EVERY exit, Ok or Err.
 //@assume process_events and SvgElement::generate_events meet the same trait-level contract (scope_frame) - process_tags is checked against it in U-retry, the dispatcher forwards it
+//@assume R-tostring: `value.to_string()` on a `&String` is `value.clone()` (the blanket ToString impl cannot be given a spec); R-itermap: `for v in xs.iter().rev().map(|s| &s.vars)` is `for s_ in xs.iter().rev() { let v = &s_.vars; ..`
 //@assume R-inspect-err: `e.inspect_err(|_| { context.pop_element(); })?` is rewritten to the equivalent `match e { Ok(v) => v, Err(err) => { context.pop_element(); return Err(err); } }` (closures capturing &mut are not translated)
 use vstd::prelude::*;
 //@prelude fmt_macro
@@ -58,8 +59,18 @@ impl Scope {
     pub fn default() -> (r: Scope) { unimplemented!() }
 }
 impl VarTable {
+    pub uninterp spec fn view(&self) -> Map<Seq<char>, Seq<char>>;
     #[verifier::external_body]
-    pub fn insert(&mut self, k: String, v: String) -> Option<String> { unimplemented!() }
+    pub fn insert(&mut self, k: String, v: String) -> (r: Option<String>) ensures final(self)@ == old(self)@.insert(k@, v@) { unimplemented!() }
+    /// HashMap<String, String>::get(&str)
+    #[verifier::external_body]
+    pub fn get(&self, k: &str) -> (r: Option<&String>)
+        ensures (r is Some) == self@.dom().contains(k@), r is Some ==> r->Some_0@ == self@[k@]
+    { unimplemented!() }
+}
+/// the binding in force: the innermost scope (highest index below n) that defines the name
+pub open spec fn lookup(st: Seq<Scope>, name: Seq<char>, n: int) -> Option<Seq<char>> decreases n {
+    if n <= 0 { None } else if st[n - 1].vars@.dom().contains(name) { Some(st[n - 1].vars@[name]) } else { lookup(st, name, n - 1) }
 }
 
 /// everything of the context a scoping generator must restore
@@ -135,6 +146,28 @@ impl TransformerContext {
 //@ - old(self).scope_stack.len() == 0 ==> final(self).scope_stack.len() == 1    @@C15.ensure_scope.base
 //@ - old(self).scope_stack.len() > 0 ==> final(self).scope_stack@.drop_last() == old(self).scope_stack@.drop_last()    @@C15.ensure_scope.outer_untouched
 //@ - final(self).vars_set == old(self).vars_set
+//@end
+
+//@item src/context.rs :: impl VariableMap for TransformerContext :: fn get_var
+//@ replace[R-itermap] <<<for var_scope in self.scope_stack.iter().rev().map(|s| &s.vars) {>>> => <<<for s_ in self.scope_stack.iter().rev() {\n            let var_scope = &s_.vars;>>>
+//@ replace[R-tostring] <<<return Some(value.to_string());>>> => <<<return Some(value.clone());>>>
+//@ after <<<let var_scope = &s_.vars;>>>
+//@ | proof {
+//@ |     let st = self.scope_stack@; let k = it.index@;
+//@ |     let all = (it.history@ + vstd::std_specs::iter::IteratorSpec::remaining(&it.iter)).map(|i: int, e: &Scope| *e);
+//@ |     assert(all[k] == st.reverse()[k]);
+//@ |     assert(st.reverse()[k] == st[st.len() - 1 - k]);
+//@ |     assert(*s_ == st[st.len() - 1 - k]);
+//@ | }
+//@ ensures
+//@ - (match lookup(self.scope_stack@, name@, self.scope_stack@.len() as int) { Some(v) => r is Some && r->Some_0@ == v, None => r is None })     @@C15.lookup.innermost_first
+//@ loop 1
+//@ iter it
+//@ invariant
+//@ - self.scope_stack@.reverse() == (it.history@ + vstd::std_specs::iter::IteratorSpec::remaining(&it.iter)).map(|i: int, e: &Scope| *e)
+//@ - it.index@ == it.history@.len()
+//@ - it.index@ <= self.scope_stack@.len()
+//@ - lookup(self.scope_stack@, name@, self.scope_stack@.len() as int) == lookup(self.scope_stack@, name@, self.scope_stack@.len() - it.index@)
 //@end
 
 //@item src/context.rs :: impl TransformerContext :: fn set_var
